@@ -134,12 +134,26 @@ class Prop(BaseProp):
             return res
         D = collect(rstscan.Page(o0.value))
         Dgen = {n.uid(): n for n in rstscan.Page(o0.value).entries() if rstscan.kind_of(n) == "generic"}
+        reuse_settings = runner.PIPELINE == "documenter" and idx % 4 == 1
+        reused = [None]
         for combo in combos:
             X = dict(zip(FLAGS, combo))
             res.count("combos_run")
             if not X["cpp_class"]:
                 res.count("class_flag_off_combos")
-            settings = runner.make_settings(input=dict(other, **{f"include_undocumented_{k}": v for k, v in X.items()}))
+            if reuse_settings:
+                # the public API used directly: ONE Settings object (or deep copies of it) serves all runs, its options are
+                # changed in place between two Documenter runs
+                import copy
+                if reused[0] is None:
+                    reused[0] = runner.make_settings(input=dict(other))
+                settings = reused[0] if len(reused) % 2 else copy.deepcopy(reused[0])
+                reused.append(None)
+                for k_, v_ in X.items():
+                    setattr(settings.input, f"include_undocumented_{k_}", v_)
+                res.count("runs_with_a_reused_settings_object")
+            else:
+                settings = runner.make_settings(input=dict(other, **{f"include_undocumented_{k}": v for k, v in X.items()}))
             o, _ = runner.document_text(text, settings)
             off = [k for k, v in X.items() if not v]
             wit = {"text": text, "flags_off": off}
